@@ -33,8 +33,9 @@ type Obl struct {
 }
 
 type Enc struct {
-	symAt map[string]int // symbol -> number of lines when it was introduced
-	hints      bool // emit array-store instantiation hints (contract clause "hints")
+	globSlices []string
+	symAt      map[string]int // symbol -> number of lines when it was introduced
+	hints      bool           // emit array-store instantiation hints (contract clause "hints")
 	P          *Program
 	decls      []string
 	declared   map[string]string
@@ -335,6 +336,17 @@ func (e *Enc) loadGlobal(h *Heap, g *ssa.Global) Val {
 		tab := e.P.globalTable(g)
 		if tab == nil {
 			panic(unsupported("global slice %s is not a constant table", g.Name()))
+		}
+		if _, seen := e.declared[name]; !seen {
+			// the backing array of a package-level table exists before the function runs: a store through an
+			// alias of it is a write to pre-existing memory (frame obligations) and never to a fresh object
+			e.declare("alloc@0", "Int")
+			a := e.declare(name, "Int")
+			e.decls = append(e.decls, fmt.Sprintf("(assert (and (< 0 %s) (<= %s |alloc@0|)))", a, a))
+			for _, o := range e.globSlices {
+				e.decls = append(e.decls, fmt.Sprintf("(assert (distinct %s %s))", a, o))
+			}
+			e.globSlices = append(e.globSlices, a)
 		}
 		return Val{T: t, K: kSlice, Arr: e.declare(name, "Int"), Len: num(int64(len(tab.Keys))), Glob: g}
 	}
